@@ -29,6 +29,10 @@ KINDS = {
     'dangle_names': ((2, 3), (2, 3), 'DN'),
     # root + two children, one of them dangling under a foreign name
     'dangle_sib': ((2, 3), (2, 3), 'DNS'),
+    # wave 14: a complete trace one of whose spans names a parent that is in
+    # the store, but under ANOTHER trace id (a one-span host trace that comes
+    # with it); nothing is missing, so cleaning must leave both alone
+    'xlink': ((2, 3), (2, 3), 'X'),
 }
 
 
@@ -39,12 +43,16 @@ EPOCH_BASE = 1_715_688_000_123_456_789
 
 
 def mk(kind, k, base=0):
+    """-> list of traces (one, except for kinds that bring a host trace)"""
     out = _mk(kind, k)
     if base:
         for s in out:
             s["start_timestamp"] += base
             s["end_timestamp"] += base
-    return out
+    if 'X' in KINDS[kind][2]:
+        return [[s for s in out if s["job_id"].endswith("h")],
+                [s for s in out if not s["job_id"].endswith("h")]]
+    return [out]
 
 
 def _mk(kind, k):
@@ -68,6 +76,16 @@ def _mk(kind, k):
                             parent_event_id=f"{jid}r"))
         return out
     out.append(root)
+    if 'X' in fl:
+        out.append(dict(job_name="n", job_id=jid + "h", event_type="h",
+                        event_id=f"{jid}host", start_timestamp=r[0] * M,
+                        end_timestamp=r[1] * M, application_name="a",
+                        parent_event_id=None))
+        out.append(dict(job_name="n", job_id=jid, event_type="c",
+                        event_id=f"{jid}c", start_timestamp=c[0] * M,
+                        end_timestamp=c[1] * M, application_name="a",
+                        parent_event_id=f"{jid}host"))
+        return out
     if c:
         out.append(dict(job_name="other" if 'N' in fl else "n", job_id=jid,
                         event_type="c", event_id=f"{jid}c",
@@ -87,6 +105,13 @@ def pvcanon(h):
                           e['applicationName']) for e in job)
             res[evs[0][5]] = (nm, tuple(evs))
     return res
+
+
+def pvcanon_x(h):
+    try:
+        return pvcanon(h)
+    except KeyError as e:
+        return {"EXC": ("KeyError", str(e))}
 
 
 def clean(h):
@@ -111,7 +136,7 @@ def scale_store(n):
 
 
 def run_store(store, buf, batches=(1, 1000), base=0):
-    traces = [mk(kd, k, base) for k, kd in enumerate(store)]
+    traces = [t for k, kd in enumerate(store) for t in mk(kd, k, base)]
     spans = [s for t in traces for s in t]
     bad = []
     stats = {"dangling_removed": 0, "window_removed": 0, "renamed": 0,
@@ -173,14 +198,19 @@ def run_store(store, buf, batches=(1, 1000), base=0):
                                             [r[0] for r in exp
                                              if r not in rows][:6]]})
                     continue
-                got = pvcanon(h)
+                # a parent stored under another trace id is not a call tree:
+                # the sequencer (C08's subject, which presupposes a tree)
+                # raises KeyError on it, with or without the removed traces;
+                # for such stores the frame condition compares that outcome
+                xl = any('X' in KINDS[kd][2] for kd in store)
+                got = pvcanon_x(h) if xl else pvcanon(h)
                 h2 = impl_otel.new_holder(batch_size=bs, time_buffer=buf)
                 try:
                     impl_otel.ingest(h2, [s for t in surv2 for s in t])
                     # the window is a function of everything ingested: pin it
                     h2._min_timestamp, h2._max_timestamp = mn, mx
                     clean(h2)
-                    ref = pvcanon(h2)
+                    ref = pvcanon_x(h2) if xl else pvcanon(h2)
                 finally:
                     h2.engine.dispose()
                 if ref != got:
